@@ -403,7 +403,7 @@ def by_name(rng, fq, p, doc):
     if p in ('a', 'q', 'r', 'sun_dist', 'earth_dist', 'sun_earth_dist', 'distance', 'DELTA', 'R'):
         return rng.uniform(0.3, 40.0)
     if p in ('year', 'yyyy'):
-        hot = [x for x in HOT['ints'] if -4000 <= x <= 4000]
+        hot = [x for x in HOT['ints'] if 1 <= x <= 3000]
         if hot and rng.random() < 0.3:
             return rng.choice(hot)
         return rng.choice([1900, 2000, 2024, 1999, 1582, 1583, 2100, rng.randint(1600, 2200)])
